@@ -276,6 +276,7 @@ def check_corrupt(case):
     p, mem, tgt = S.build_target(case)
     cor = Corruptor(tgt, case["k"], case["mode"], case["arg"])
     harness.install(cor)
+    discs += []
     names = [S.render(r) for r in case["reqs"]]
     try:
         def factory():
@@ -298,7 +299,7 @@ def check_corrupt(case):
                 discs.append(Disc("corrupt.short-register-accepted", f"RegisterSession reply cut to {len(out)} bytes, yet the driver went on to send CIP requests"))
     finally:
         harness.uninstall()
-    return discs
+    return discs + canaries()
 
 
 def check_short_reply(kind, cut, session=0x1234):
@@ -333,9 +334,22 @@ def check_short_reply(kind, cut, session=0x1234):
     return []
 
 
+def canaries():
+    """classification must not depend on what happened earlier in the process (global tables, caches): a few fixed replies are
+    classified again after every scenario"""
+    discs = []
+    for kind, rsvc in (("read", 0x4C), ("gconn", 0x0E), ("gconn", 0x4C), ("write", 0x4D), ("rmw", 0x4E), ("readfrag", 0x52), ("gunconn", 0x4C)):
+        for status in (0, 6, 5):
+            discs += [Disc("after-scenario." + d.bucket, d.detail + " [re-classified after an earlier scenario in the same process]")
+                      for d in check_matrix(kind, rsvc, status, [], 0)]
+    return discs
+
+
 def check_forced(case):
     run = S.run_case(case, want_readback=False)
-    discs = run.of("C13")
+    discs = run.of("C13") + canaries()
+    if case.get("template_forced"):
+        return discs, run
     # no exception may escape, whatever was forced
     discs += [Disc("forced." + d.bucket, d.detail) for d in run.of("C03") if ".foreign." in d.bucket or ".raises." in d.bucket or ".shape." in d.bucket]
     f = case["forced"][0]
@@ -360,10 +374,14 @@ def forced_cases(draw):
     op = draw(st.sampled_from(["read", "write"]))
     case = draw(c01.cases(op, many=draw(st.booleans())))
     p = S.Project(case["pd"])
-    kind = draw(st.sampled_from(["tag", "tag", "wrapper", "nth"]))
+    kind = draw(st.sampled_from(["tag", "tag", "wrapper", "nth", "template"]))
     status = draw(st.sampled_from([0x01, 0x02, 0x04, 0x05, 0x08, 0x0F, 0x10, 0x13, 0x1E, 0x20, 0x26, 0x77, 0xFE, 0xFF]))
     ext = draw(st.sampled_from([[], [], [0x2105], [0x0001], [0x0000, 0x0001]]))
-    if kind == "wrapper":
+    if kind == "template":
+        # the controller refuses a template read during the tag upload (open() then fails)
+        forced = [{"when": {"service": 0x4C, "class": 0x6C, "transport": "connected"}, "status": status, "ext": ext}]
+        case["template_forced"] = True
+    elif kind == "wrapper":
         forced = [{"when": {"service": 0x0A, "transport": "connected"}, "status": status, "ext": ext}]
         case["reqs"] = [dict(r, invalid="forced") for r in case["reqs"]]
         case["wrapper_forced"] = True
